@@ -421,7 +421,7 @@ func c12Explore(c *Ctx, e *c12Env, sc c12Scenario, bound int, prune bool) {
 		for i := 0; i < 2; i++ {
 			r := c12Exec(e, sc, explore.Replay(first, nil), false, c.Seed)
 			if o := sched.DescribeOrder(r.out.Order); o != firstOrder {
-				c.Error("replay divergence in %+v: order %s vs %s (aborted %q)", sc, firstOrder, o, r.out.Aborted)
+				c.Unstable("replay divergence in %+v: order %s vs %s (aborted %q)", sc, firstOrder, o, r.out.Aborted)
 			}
 		}
 	}
